@@ -319,7 +319,7 @@ theorem buffered_asis_drops_bound_attrs :
 
 /-! ## Part 2: buffering — not lost, exactly once, in order, over all schedules
 
-The machine of `Model/LogBuf.lean` with the four repairs on (`Flags.fixed`, what /repo contains now).
+The machine of `Model/LogBuf.lean` with the five repairs on (`Flags.fixed`, what /repo contains now).
 Every theorem quantifies over every set of worker programs (any number of workers, any ops) whose log
 calls carry increasing sequence numbers per worker, and over every schedule (any list of steps). -/
 
@@ -331,28 +331,20 @@ structure BInv (custom : Bool) (progs : List (List Op)) (s : St) : Prop where
   ord : OInv progs s
   del : DRel custom s (deliveryMonitor custom progs s.trace)
 
-theorem lemma_nostale {progs : List (List Op)} (h : hasStale progs = false) : NoStale progs := by
-  intro p hp c hc
-  simp only [hasStale, List.any_eq_false] at h
-  have h1 := h p hp
-  rw [Bool.not_eq_true, List.any_eq_false] at h1
-  have := h1 (.log c) hc
-  simpa using this
-
-theorem lemma_binv_advance {custom : Bool} {progs : List (List Op)} {s : St} (g : Nat) (hns : NoStale progs)
+theorem lemma_binv_advance {custom : Bool} {progs : List (List Op)} {s : St} (g : Nat)
     (h : BInv custom progs s) : BInv custom progs (advance Flags.fixed s g) := by
-  refine ⟨sinv_advance g h.st, oinv_advance g hns h.st h.ord, ?_⟩
-  obtain ⟨evs, htr, hrel⟩ := drel_advance (progs := progs) g hns h.st h.ord h.del
+  refine ⟨sinv_advance g h.st, oinv_advance g h.st h.ord, ?_⟩
+  obtain ⟨evs, htr, hrel⟩ := drel_advance (progs := progs) g h.st h.ord h.del
   rw [htr, deliveryMonitor_append]
   exact hrel
 
 theorem lemma_binv_runToIdle {custom : Bool} {progs : List (List Op)} (fuel : Nat) {s : St} (g : Nat)
-    (hns : NoStale progs) (h : BInv custom progs s) : BInv custom progs (runToIdle Flags.fixed fuel s g) := by
+    (h : BInv custom progs s) : BInv custom progs (runToIdle Flags.fixed fuel s g) := by
   induction fuel generalizing s with
   | zero => exact h
   | succ n ih =>
     simp only [runToIdle]
-    have h' := lemma_binv_advance g hns h
+    have h' := lemma_binv_advance g h
     split
     · split
       · exact ih h'
@@ -360,14 +352,14 @@ theorem lemma_binv_runToIdle {custom : Bool} {progs : List (List Op)} (fuel : Na
     · exact h'
 
 theorem lemma_binv_step {custom : Bool} {progs : List (List Op)} (fuel : Nat) {s : St} (st : Step)
-    (hns : NoStale progs) (h : BInv custom progs s) : BInv custom progs (step Flags.fixed fuel s st) := by
+    (h : BInv custom progs s) : BInv custom progs (step Flags.fixed fuel s st) := by
   cases st with
-  | seg g => exact lemma_binv_advance g hns h
-  | run g => exact lemma_binv_runToIdle fuel g hns h
+  | seg g => exact lemma_binv_advance g h
+  | run g => exact lemma_binv_runToIdle fuel g h
 
 theorem lemma_binv_init (custom : Bool) (progs : List (List Op)) (hwf : WF progs) :
-    BInv custom progs (initSt custom progs) := by
-  have hget : ∀ (g : Nat) (w : Worker), (initSt custom progs).ws[g]? = some w →
+    BInv custom progs (initSt true custom progs) := by
+  have hget : ∀ (g : Nat) (w : Worker), (initSt true custom progs).ws[g]? = some w →
       ∃ p, progs[g]? = some p ∧ w = { ops := p, idx := 0, gate := none } := by
     intro g w hw
     simp only [initSt, List.getElem?_map, Option.map_eq_some_iff] at hw
@@ -401,25 +393,23 @@ theorem lemma_binv_init (custom : Bool) (progs : List (List Op)) (hwf : WF progs
   · intro g x hmem; simp [initSt, deliveryMonitor] at hmem
   · intro g i snap hmem; simp [initSt, deliveryMonitor] at hmem
 
-theorem lemma_binv_run (custom : Bool) (progs : List (List Op)) (sched : List Step) (hwf : WF progs)
-    (hns : NoStale progs) :
-    BInv custom progs (sched.foldl (step Flags.fixed (totalOps progs + 2)) (initSt custom progs)) := by
+theorem lemma_binv_run (custom : Bool) (progs : List (List Op)) (sched : List Step) (hwf : WF progs) :
+    BInv custom progs (sched.foldl (step Flags.fixed (totalOps progs + 2)) (initSt true custom progs)) := by
   have : ∀ (s : St), BInv custom progs s → BInv custom progs (sched.foldl (step Flags.fixed (totalOps progs + 2)) s) := by
     induction sched with
     | nil => intro s h; exact h
-    | cons st rest ih => intro s h; exact ih _ (lemma_binv_step _ st hns h)
+    | cons st rest ih => intro s h; exact ih _ (lemma_binv_step _ st h)
   exact this _ (lemma_binv_init custom progs hwf)
 
-/-- **Main theorem, buffering half (model satisfies the whole oracle)** — the partial theorem
-    `¬ K20f → model satisfies spec`: for every set of worker programs in which no worker logs through a
-    `slog.Logger` obtained before `StartBuffering`, and every schedule, the trace of the repaired logger
+/-- **Main theorem, buffering half (model satisfies the whole oracle)**, full strength: for every set of
+    worker programs (also those in which a worker logs through a `slog.Logger` obtained before
+    `StartBuffering` — K20f, repaired) and every schedule, the trace of the repaired logger
     passes both monitors — every write is
     of a logged record, intact, in per-worker order and never repeated; every call that had returned
     before a `FlushBuffer` began and must be delivered is in the output when that `FlushBuffer` returns. -/
-theorem buffering_meets_spec (custom : Bool) (progs : List (List Op)) (sched : List Step) (hwf : WF progs)
-    (hk : hasStale progs = false) :
+theorem buffering_meets_spec (custom : Bool) (progs : List (List Op)) (sched : List Step) (hwf : WF progs) :
     LogBuf.specOK custom progs (run Flags.fixed custom progs sched) = true := by
-  have h := lemma_binv_run custom progs sched hwf (lemma_nostale hk)
+  have h := lemma_binv_run custom progs sched hwf
   simp only [LogBuf.specOK, run, Bool.and_eq_true]
   exact ⟨h.ord.ok, h.del.ok⟩
 
@@ -478,18 +468,16 @@ theorem order_monitor_sound (progs : List (List Op)) (tr : List Ev) (h : (orderM
 
 /-- **The records of one goroutine are emitted in the order they were logged** — every set of programs,
     every schedule (flush interleaved with logging at every point the final handler can be stalled). -/
-theorem per_goroutine_order (custom : Bool) (progs : List (List Op)) (sched : List Step) (hwf : WF progs)
-    (hk : hasStale progs = false) :
+theorem per_goroutine_order (custom : Bool) (progs : List (List Op)) (sched : List Step) (hwf : WF progs) :
     (writesOf (run Flags.fixed custom progs sched)).Pairwise (fun a b => a.1 = b.1 → a.2.1 < b.2.1) := by
-  have h := buffering_meets_spec custom progs sched hwf hk
+  have h := buffering_meets_spec custom progs sched hwf
   simp only [LogBuf.specOK, Bool.and_eq_true] at h
   exact (order_monitor_sound progs _ h.1).2
 
 /-- **Exactly once**: no record reaches the output twice … -/
-theorem delivered_at_most_once (custom : Bool) (progs : List (List Op)) (sched : List Step) (hwf : WF progs)
-    (hk : hasStale progs = false) :
+theorem delivered_at_most_once (custom : Bool) (progs : List (List Op)) (sched : List Step) (hwf : WF progs) :
     ((writesOf (run Flags.fixed custom progs sched)).map fun w => (w.1, w.2.1)).Nodup := by
-  have h := per_goroutine_order custom progs sched hwf hk
+  have h := per_goroutine_order custom progs sched hwf
   rw [List.Nodup, List.pairwise_map]
   refine h.imp ?_
   intro a b hab heq
@@ -498,10 +486,9 @@ theorem delivered_at_most_once (custom : Bool) (progs : List (List Op)) (sched :
   omega
 
 /-- … what reaches it is a record that was logged, with the attributes it was logged with (K20d) -/
-theorem delivered_records_genuine (custom : Bool) (progs : List (List Op)) (sched : List Step) (hwf : WF progs)
-    (hk : hasStale progs = false) :
+theorem delivered_records_genuine (custom : Bool) (progs : List (List Op)) (sched : List Step) (hwf : WF progs) :
     ∀ w ∈ writesOf (run Flags.fixed custom progs sched), w.2.2 = true ∧ w.2.1 ∈ loggedSeqs progs w.1 := by
-  have h := buffering_meets_spec custom progs sched hwf hk
+  have h := buffering_meets_spec custom progs sched hwf
   simp only [LogBuf.specOK, Bool.and_eq_true] at h
   exact (order_monitor_sound progs _ h.1).1
 
@@ -509,12 +496,12 @@ theorem delivered_records_genuine (custom : Bool) (progs : List (List Op)) (sche
     `FlushBuffer` has completed), every log call that has returned and had to be delivered is in the
     output — whatever `SetLevel`, `Shutdown`, failed writes and other workers did in between. -/
 theorem nothing_lost_once_buffering_is_off (custom : Bool) (progs : List (List Op)) (sched : List Step)
-    (hwf : WF progs) (hk : hasStale progs = false) :
-    let s := sched.foldl (step Flags.fixed (totalOps progs + 2)) (initSt custom progs)
+    (hwf : WF progs) :
+    let s := sched.foldl (step Flags.fixed (totalOps progs + 2)) (initSt true custom progs)
     s.buffering = false →
     ∀ gs ∈ (deliveryMonitor custom progs s.trace).returned, gs ∈ (deliveryMonitor custom progs s.trace).written := by
   intro s hb gs hgs
-  have h : BInv custom progs s := lemma_binv_run custom progs sched hwf (lemma_nostale hk)
+  have h : BInv custom progs s := lemma_binv_run custom progs sched hwf
   have hbuf : s.buffer = [] := h.st.f5 hb
   have hbatch : s.batch = [] := by
     apply h.st.f3
@@ -552,7 +539,7 @@ theorem flush_overtake_asis :
 
 /-- … and it is the loop in `flush` that repairs it (the other three repairs on, that one off) -/
 theorem flush_overtake_needs_loop :
-    LogBuf.specOK true wProgs (run ⟨true, true, false, true⟩ true wProgs wSched) = false := by decide
+    LogBuf.specOK true wProgs (run ⟨true, true, false, true, true⟩ true wProgs wSched) = false := by decide
 
 def wRun (n : Nat) : List Step := List.replicate n (.run 0)
 
@@ -562,7 +549,7 @@ theorem setlevel_drops_buffer_asis :
     LogBuf.specOK false [[.startBuffering, wLog 0, .setLevel 0, .flush]]
       (run Flags.asIs false [[.startBuffering, wLog 0, .setLevel 0, .flush]] (wRun 4)) = false ∧
     LogBuf.specOK false [[.startBuffering, wLog 0, .setLevel 0, .flush]]
-      (run ⟨false, true, true, true⟩ false [[.startBuffering, wLog 0, .setLevel 0, .flush]] (wRun 4)) = false ∧
+      (run ⟨false, true, true, true, true⟩ false [[.startBuffering, wLog 0, .setLevel 0, .flush]] (wRun 4)) = false ∧
     writesOf (run Flags.fixed false [[.startBuffering, wLog 0, .setLevel 0, .flush]] (wRun 4)) = [(0, 0, true)] := by
   decide
 
@@ -570,43 +557,50 @@ theorem setlevel_drops_buffer_asis :
 theorem derived_record_mutilated_asis :
     writesOf (run Flags.asIs false [[.startBuffering, wLog 0 true, .flush]] (wRun 3)) = [(0, 0, false)] ∧
     LogBuf.specOK false [[.startBuffering, wLog 0 true, .flush]]
-      (run ⟨true, false, true, true⟩ false [[.startBuffering, wLog 0 true, .flush]] (wRun 3)) = false := by
+      (run ⟨true, false, true, true, true⟩ false [[.startBuffering, wLog 0 true, .flush]] (wRun 3)) = false := by
   decide
 
 /-- K20e, as shipped: the write of the first buffered record fails and the second record is dropped with it -/
 theorem failed_write_drops_rest_asis :
     writesOf (run Flags.asIs false [[.startBuffering, wLog 0 false true, wLog 1, .flush]] (wRun 4)) = [] ∧
     LogBuf.specOK false [[.startBuffering, wLog 0 false true, wLog 1, .flush]]
-      (run ⟨true, true, true, false⟩ false [[.startBuffering, wLog 0 false true, wLog 1, .flush]] (wRun 4)) = false ∧
+      (run ⟨true, true, true, false, true⟩ false [[.startBuffering, wLog 0 false true, wLog 1, .flush]] (wRun 4)) = false ∧
     writesOf (run Flags.fixed false [[.startBuffering, wLog 0 false true, wLog 1, .flush]] (wRun 4)) = [(0, 1, true)] := by
   decide
 
 
-/-! ### K20f (recorded): a `slog.Logger` obtained before `StartBuffering` bypasses the buffer -/
+/-! ### K20f (repaired): a `slog.Logger` obtained before `StartBuffering` no longer bypasses the buffer -/
 
 def wStale (seq : Nat) : Op := .log { seq := seq, lvl := 3, derived := false, fail := false, stale := true }
 
-/-- StartBuffering; log through the Logger (buffered); log through the stale logger (written at once);
-    FlushBuffer: the second record reaches the output before the first -/
-theorem stale_logger_overtakes :
-    writesOf (run Flags.fixed false [[.startBuffering, wLog 0, wStale 1, .flush]] (wRun 4)) = [(0, 1, true), (0, 0, true)] ∧
+/-- the other four repairs on, the wrapper installed only by `StartBuffering` (as shipped) -/
+def Flags.lazyWrap : Flags := ⟨true, true, true, true, false⟩
+
+/-- as shipped — StartBuffering; log through the Logger (buffered); log through the stale logger (written at
+    once); FlushBuffer: the second record reaches the output before the first. With the wrapper installed at
+    construction (`Flags.fixed`) both come out in the order they were logged. -/
+theorem stale_logger_overtakes_asis :
+    writesOf (run Flags.lazyWrap false [[.startBuffering, wLog 0, wStale 1, .flush]] (wRun 4)) = [(0, 1, true), (0, 0, true)] ∧
     LogBuf.specOK false [[.startBuffering, wLog 0, wStale 1, .flush]]
-      (run Flags.fixed false [[.startBuffering, wLog 0, wStale 1, .flush]] (wRun 4)) = false ∧
-    hasStale [[.startBuffering, wLog 0, wStale 1, .flush]] = true := by
+      (run Flags.lazyWrap false [[.startBuffering, wLog 0, wStale 1, .flush]] (wRun 4)) = false ∧
+    hasStale [[.startBuffering, wLog 0, wStale 1, .flush]] = true ∧
+    writesOf (run Flags.fixed false [[.startBuffering, wLog 0, wStale 1, .flush]] (wRun 4)) = [(0, 0, true), (0, 1, true)] := by
   decide
 
-/-- the statement without the exclusion (kept visible) does not hold of the code as it is -/
+/-- the statement without any exclusion on the programs -/
 def FullStatementBuffering : Prop :=
   ∀ (custom : Bool) (progs : List (List Op)) (sched : List Step), WF progs →
     LogBuf.specOK custom progs (run Flags.fixed custom progs sched) = true
 
-theorem full_statement_needs_exclusion : ¬ FullStatementBuffering := by
-  intro h
-  have := h false [[.startBuffering, wLog 0, wStale 1, .flush]] (wRun 4) (by
-    intro p hp
-    simp only [List.mem_cons, List.not_mem_nil, or_false] at hp
-    subst hp; decide)
-  exact absurd this (by rw [stale_logger_overtakes.2.1]; decide)
+/-- … holds of the code as it is now (it did not before the K20f repair: `stale_logger_overtakes_asis`) -/
+theorem full_statement_buffering : FullStatementBuffering :=
+  fun custom progs sched hwf => buffering_meets_spec custom progs sched hwf
+
+/-- a stale logger's record that is buffered is also delivered by the FlushBuffer that follows (the oracle does not
+    require it — it is a different `slog.Logger` with the level it was built with — the repaired code does it) -/
+theorem stale_record_buffered_and_flushed :
+    writesOf (run Flags.fixed false [[.startBuffering, wStale 0, .flush]] (wRun 3)) = [(0, 0, true)] ∧
+    writesOf (run Flags.fixed false [[.startBuffering, wStale 0]] (wRun 2)) = [] := by decide
 
 
 /-! ### stress histories: what the oracle's verdict means, and that the expectation meets it -/
